@@ -9,7 +9,7 @@ the type checker walks the unit: the overloads **declared above the call** in th
 * an unqualified call at the root, or `::f(..)` anywhere: the root scope's;
 * `N::f(..)`: those of `namespace N` (however many times it was reopened);
 * an unqualified call inside `namespace N`: N's if N has declared one above the call, else the root's;
-* a call of a method: **every** method of the struct, above or below the caller;
+* a call of a method: **every** method of that struct, above or below the caller (and none of another struct's);
 * a name the compiler has overloads of: those (they lead the sequence) and the user's above the call.
 
 Definitions of functions declared before, other call sites, helper templates and their instantiations are not
@@ -27,7 +27,11 @@ def declared (scope : Nat) : List SeqItem → List TCand
 /-- the candidates visible at a call with lookup `mode` that stands between `pre` and `post`; `none` = the name is unknown there -/
 def visibleAt (p : SeqPath) (pre post : List SeqItem) (mode : Nat) : Option (List TCand) :=
   let v := match p with
-    | .method => allDeclared (pre ++ post)
+    | .method =>
+      match mode with
+      | 2 => declared 1 (pre ++ post)
+      | 3 => declared 1 (pre ++ post)
+      | _ => declared 0 (pre ++ post)
     | .intrinsic => allDeclared pre
     | .free =>
       match mode with
